@@ -6,7 +6,7 @@
 From Coq Require Import List ZArith Bool Arith Lia.
 From PV Require Import Model.Term Model.Subst Model.Unify Model.FD Model.State Model.Engine Spec.StreamSem
   Proofs.UnifyProofs Proofs.StreamProofs Proofs.EngineProofs Proofs.SemProofs Proofs.FDDen Proofs.FDComp Proofs.FDProg
-  Proofs.FairProofs Proofs.Complete0 Proofs.ForceC Proofs.ScopeElab Proofs.ScopeState Proofs.RelSound Gen.RelDefs.
+  Proofs.FairProofs Proofs.Complete0 Proofs.ForceC Proofs.ScopeElab Proofs.ScopeState Proofs.RelSound Proofs.RelSound2 Gen.RelDefs.
 From PV Require Import Proofs.RelComplete.
 Import ListNotations.
 Local Open Scope nat_scope.
@@ -34,8 +34,89 @@ Fixpoint LibV (k : nat) (r : nat) (vals : list term) : Prop :=
         | [x; l] => exists h t, l = TCons h t /\ (h = x \/ LibV k rel_member [x; t])
         | _ => False
         end
+      else if Nat.eqb r rel_member1 then
+        match vals with
+        | [x; l] => exists h t, l = TCons h t /\ (h = x \/ (h <> x /\ LibV k rel_member1 [x; t]))
+        | _ => False
+        end
+      else if Nat.eqb r rel_rember then
+        match vals with
+        | [x; l; o] => (l = TEmpty /\ o = TEmpty) \/ (exists t, l = TCons x t /\ o = t) \/
+                       (exists h t w, l = TCons h t /\ o = TCons h w /\ h <> x /\ LibV k rel_rember [x; t; w])
+        | _ => False
+        end
+      else if Nat.eqb r rel_distinct then
+        match vals with
+        | [l] => l = TEmpty \/ (exists a, l = TCons a TEmpty) \/
+                 (exists a b t, l = TCons a (TCons b t) /\ a <> b /\ LibV k rel_distinct [TCons a t] /\ LibV k rel_distinct [TCons b t])
+        | _ => False
+        end
+      else if Nat.eqb r rel_permute then
+        match vals with
+        | [a; b] => (a = TEmpty /\ b = TEmpty) \/
+                    (exists x xs ys, a = TCons x xs /\ LibV k rel_permute [xs; ys] /\ LibV k rel_rember [x; b; ys])
+        | _ => False
+        end
       else False
   end.
+
+Ltac rel_ids := cbv [rel_append rel_member rel_member1 rel_rember rel_distinct rel_permute Nat.eqb]; cbv iota.
+
+Lemma LibV_mono : forall k r vals, LibV k r vals -> LibV (S k) r vals.
+Proof.
+  induction k as [|k IH]; intros r vals H; [destruct H|].
+  cbn [LibV] in H. change (LibV (S (S k)) r vals) with
+    (if Nat.eqb r rel_append then
+        match vals with
+        | [x; y; z] => (x = TEmpty /\ y = z) \/ exists h t w, x = TCons h t /\ z = TCons h w /\ LibV (S k) rel_append [t; y; w]
+        | _ => False
+        end
+      else if Nat.eqb r rel_member then
+        match vals with
+        | [x; l] => exists h t, l = TCons h t /\ (h = x \/ LibV (S k) rel_member [x; t])
+        | _ => False
+        end
+      else if Nat.eqb r rel_member1 then
+        match vals with
+        | [x; l] => exists h t, l = TCons h t /\ (h = x \/ (h <> x /\ LibV (S k) rel_member1 [x; t]))
+        | _ => False
+        end
+      else if Nat.eqb r rel_rember then
+        match vals with
+        | [x; l; o] => (l = TEmpty /\ o = TEmpty) \/ (exists t, l = TCons x t /\ o = t) \/
+                       (exists h t w, l = TCons h t /\ o = TCons h w /\ h <> x /\ LibV (S k) rel_rember [x; t; w])
+        | _ => False
+        end
+      else if Nat.eqb r rel_distinct then
+        match vals with
+        | [l] => l = TEmpty \/ (exists a, l = TCons a TEmpty) \/
+                 (exists a b t, l = TCons a (TCons b t) /\ a <> b /\ LibV (S k) rel_distinct [TCons a t] /\ LibV (S k) rel_distinct [TCons b t])
+        | _ => False
+        end
+      else if Nat.eqb r rel_permute then
+        match vals with
+        | [a; b] => (a = TEmpty /\ b = TEmpty) \/
+                    (exists x xs ys, a = TCons x xs /\ LibV (S k) rel_permute [xs; ys] /\ LibV (S k) rel_rember [x; b; ys])
+        | _ => False
+        end
+      else False).
+  destruct (Nat.eqb r rel_append).
+  { destruct vals as [|x [|y [|z [|? ?]]]]; try contradiction. destruct H as [H|[h [t [w [A [B C]]]]]]; [left; exact H|right; exists h, t, w; auto]. }
+  destruct (Nat.eqb r rel_member).
+  { destruct vals as [|x [|l [|? ?]]]; try contradiction. destruct H as [h [t [A [B|B]]]]; exists h, t; auto. }
+  destruct (Nat.eqb r rel_member1).
+  { destruct vals as [|x [|l [|? ?]]]; try contradiction. destruct H as [h [t [A [B|[B C]]]]]; exists h, t; auto. }
+  destruct (Nat.eqb r rel_rember).
+  { destruct vals as [|x [|l [|o [|? ?]]]]; try contradiction. destruct H as [H|[H|[h [t [w [A [B [C D]]]]]]]]; [left; exact H|right; left; exact H|].
+    right. right. exists h, t, w. auto. }
+  destruct (Nat.eqb r rel_distinct).
+  { destruct vals as [|l [|? ?]]; try contradiction. destruct H as [H|[H|[a [b [t [A [B [C D]]]]]]]]; [left; exact H|right; left; exact H|].
+    right. right. exists a, b, t. auto. }
+  destruct (Nat.eqb r rel_permute); [|contradiction].
+  destruct vals as [|a [|b [|? ?]]]; try contradiction. destruct H as [H|[x [xs [ys [A [B C]]]]]]; [left; exact H|]. right. exists x, xs, ys. auto.
+Qed.
+Lemma LibV_le k k' r vals : k <= k' -> LibV k r vals -> LibV k' r vals.
+Proof. induction 1; intros HV; auto. apply LibV_mono. auto. Qed.
 
 Lemma AppendV_LibV x y z : AppendV x y z -> exists k, LibV k rel_append [x; y; z].
 Proof.
@@ -50,6 +131,42 @@ Proof.
   - exists (S k). cbn [LibV]. change (Nat.eqb rel_member rel_append) with false. change (Nat.eqb rel_member rel_member) with true. cbv iota.
     exists h, t. auto.
 Qed.
+
+Lemma Member1V_LibV x l : Member1V x l -> exists k, LibV k rel_member1 [x; l].
+Proof.
+  induction 1 as [t|h t Hn H [k IH]].
+  - exists 1. cbn. exists x, t. auto.
+  - exists (S k). cbn [LibV]. rel_ids. exists h, t. auto.
+Qed.
+Lemma RemberV_LibV x l o : RemberV x l o -> exists k, LibV k rel_rember [x; l; o].
+Proof.
+  induction 1 as [|t|h t w Hn H [k IH]].
+  - exists 1. cbn. left. auto.
+  - exists 1. cbn. right. left. exists t. auto.
+  - exists (S k). cbn [LibV]. rel_ids. right. right. exists h, t, w. auto.
+Qed.
+Lemma DistinctV_LibV l : DistinctV l -> exists k, LibV k rel_distinct [l].
+Proof.
+  induction 1 as [|a|a b t Hn H1 [k1 IH1] H2 [k2 IH2]].
+  - exists 1. cbn. left. auto.
+  - exists 1. cbn. right. left. exists a. auto.
+  - exists (S (k1 + k2)). cbn [LibV]. rel_ids. right. right. exists a, b, t. split; [reflexivity|]. split; [exact Hn|].
+    split; [apply (LibV_le k1); [lia|exact IH1]|apply (LibV_le k2); [lia|exact IH2]].
+Qed.
+Lemma PermuteV_LibV a b : PermuteV a b -> exists k, LibV k rel_permute [a; b].
+Proof.
+  induction 1 as [|x xs yl ys H1 [k1 IH1] H2].
+  - exists 1. cbn. left. auto.
+  - destruct (RemberV_LibV _ _ _ H2) as [k2 IH2]. exists (S (k1 + k2)). cbn [LibV]. rel_ids. right. exists x, xs, ys. split; [reflexivity|].
+    split; [apply (LibV_le k1); [lia|exact IH1]|apply (LibV_le k2); [lia|exact IH2]].
+Qed.
+
+Ltac give def args th' m :=
+  let v := eval vm_compute in (elab lib_defs efuel BFS (combine (d_params def) args) (GConj [d_body def]) m) in
+  match v with (?c0, ?n0) => exists def, c0, n0, th' end.
+Ltac start_case A AP m th th' :=
+  assert (A : agree m th th') by (repeat (apply agree_upd; [|lia]); apply agree_refl);
+  pose proof (proj1 (app_agree m th th' A)) as AP.
 
 Lemma lib_unfold : forall k r args th m, LibV (S k) r (map (app th) args) -> Forall (tb m) args ->
   exists d c nv th', find_def r lib_defs = Some d /\
@@ -66,7 +183,7 @@ Proof.
       pose proof (proj1 (app_agree m th th' A)) as AP.
       let v := eval vm_compute in (elab lib_defs efuel BFS (combine (d_params def_append) [a; b; c]) (GConj [d_body def_append]) m) in
         match v with (?c0, ?n0) => exists def_append, c0, n0, th' end.
-      split; [reflexivity|]. split; [vm_compute; reflexivity|]. split; [exact A|]. split; [|cbn; auto 10].
+      split; [reflexivity|]. split; [vm_compute; reflexivity|]. split; [exact A|]. split; [|cbn; repeat split; reflexivity].
       apply V_conj; [|apply V_succeed]. eapply V_conde; [left; reflexivity|]. apply V_conj; [|apply V_succeed]. apply V_eq.
       cbn [app]. rewrite <- (AP a Ba), <- (AP b Bb), <- (AP c Bc). unfold th'. upd_simpl. rewrite Ex, Ey. reflexivity.
     + pose (th' := upd (upd (upd (upd th (S m) t) (S (S m)) (app th b)) (S (S (S m))) h) (S (S (S (S m)))) w).
@@ -74,11 +191,12 @@ Proof.
       pose proof (proj1 (app_agree m th th' A)) as AP.
       let v := eval vm_compute in (elab lib_defs efuel BFS (combine (d_params def_append) [a; b; c]) (GConj [d_body def_append]) m) in
         match v with (?c0, ?n0) => exists def_append, c0, n0, th' end.
-      split; [reflexivity|]. split; [vm_compute; reflexivity|]. split; [exact A|]. split; [|cbn; auto 10].
+      split; [reflexivity|]. split; [vm_compute; reflexivity|]. split; [exact A|]. split; [|cbn; repeat split; reflexivity].
       apply V_conj; [|apply V_succeed]. eapply V_conde; [right; left; reflexivity|]. apply V_conj.
       * apply V_eq. cbn [app]. rewrite <- (AP a Ba), <- (AP b Bb), <- (AP c Bc). unfold th'. upd_simpl. rewrite Ex, Ez. reflexivity.
       * apply V_conj; [|apply V_succeed]. apply V_call. cbn [map app]. unfold th'. upd_simpl. exact HR.
-  - destruct (Nat.eqb r rel_member) eqn:Em; [|contradiction].
+  - destruct (Nat.eqb r rel_member) eqn:Em; [|destruct (Nat.eqb r rel_member1) eqn:Em1; [|destruct (Nat.eqb r rel_rember) eqn:Er4;
+      [|destruct (Nat.eqb r rel_distinct) eqn:Ed; [|destruct (Nat.eqb r rel_permute) eqn:Ep; [|contradiction]]]]].
     apply Nat.eqb_eq in Em. subst r. destruct args as [|a [|b [|? ?]]]; cbn [map] in HR; try contradiction.
     inversion HA as [|? ? Ba HA1]; subst. inversion HA1 as [|? ? Bb _]; subst.
     destruct HR as [h [t [El [Eh|HR]]]].
@@ -87,7 +205,7 @@ Proof.
       pose proof (proj1 (app_agree m th th' A)) as AP.
       let v := eval vm_compute in (elab lib_defs efuel BFS (combine (d_params def_member) [a; b]) (GConj [d_body def_member]) m) in
         match v with (?c0, ?n0) => exists def_member, c0, n0, th' end.
-      split; [reflexivity|]. split; [vm_compute; reflexivity|]. split; [exact A|]. split; [|cbn; auto 10].
+      split; [reflexivity|]. split; [vm_compute; reflexivity|]. split; [exact A|]. split; [|cbn; repeat split; reflexivity].
       apply V_conj; [|apply V_succeed]. eapply V_conde; [left; reflexivity|]. apply V_conj.
       * apply V_eq. cbn [app]. rewrite <- (AP b Bb). unfold th'. upd_simpl. rewrite El, Eh. reflexivity.
       * apply V_conj; [|apply V_succeed]. apply V_eq. cbn [app]. rewrite <- (AP a Ba). unfold th'. upd_simpl. reflexivity.
@@ -96,10 +214,81 @@ Proof.
       pose proof (proj1 (app_agree m th th' A)) as AP.
       let v := eval vm_compute in (elab lib_defs efuel BFS (combine (d_params def_member) [a; b]) (GConj [d_body def_member]) m) in
         match v with (?c0, ?n0) => exists def_member, c0, n0, th' end.
-      split; [reflexivity|]. split; [vm_compute; reflexivity|]. split; [exact A|]. split; [|cbn; auto 10].
+      split; [reflexivity|]. split; [vm_compute; reflexivity|]. split; [exact A|]. split; [|cbn; repeat split; reflexivity].
       apply V_conj; [|apply V_succeed]. eapply V_conde; [right; left; reflexivity|]. apply V_conj.
       * apply V_eq. cbn [app]. rewrite <- (AP b Bb). unfold th'. upd_simpl. rewrite El. reflexivity.
       * apply V_conj; [|apply V_succeed]. apply V_call. cbn [map app]. rewrite <- (AP a Ba). unfold th'. upd_simpl. exact HR.
+    + (* member1 *)
+      apply Nat.eqb_eq in Em1. subst r. destruct args as [|a [|b [|? ?]]]; cbn [map] in HR; try contradiction.
+      inversion HA as [|? ? Ba HA1]; subst. inversion HA1 as [|? ? Bb _]; subst.
+      destruct HR as [h [t [El [Eh|[Hn HR]]]]].
+      * pose (th' := upd (upd th m (app th a)) (S m) t). start_case A AP m th th'. give def_member1 [a; b] th' m.
+        split; [reflexivity|]. split; [vm_compute; reflexivity|]. split; [exact A|]. split; [|cbn; repeat split; reflexivity].
+        apply V_conj; [|apply V_succeed]. eapply V_conde; [left; reflexivity|]. apply V_conj.
+        -- apply V_eq. cbn [app]. rewrite <- (AP b Bb). unfold th'. upd_simpl. rewrite El, Eh. reflexivity.
+        -- apply V_conj; [|apply V_succeed]. apply V_eq. cbn [app]. rewrite <- (AP a Ba). unfold th'. upd_simpl. reflexivity.
+      * pose (th' := upd (upd th (S (S m)) h) (S (S (S m))) t). start_case A AP m th th'. give def_member1 [a; b] th' m.
+        split; [reflexivity|]. split; [vm_compute; reflexivity|]. split; [exact A|]. split; [|cbn; repeat split; reflexivity].
+        apply V_conj; [|apply V_succeed]. eapply V_conde; [right; left; reflexivity|]. apply V_conj.
+        -- apply V_eq. cbn [app]. rewrite <- (AP b Bb). unfold th'. upd_simpl. rewrite El. reflexivity.
+        -- apply V_conj; [|apply V_succeed]. apply V_conj.
+           ++ apply V_diseq. cbn [app]. rewrite <- (AP a Ba). unfold th'. upd_simpl. exact Hn.
+           ++ apply V_conj; [|apply V_succeed]. apply V_call. cbn [map app]. rewrite <- (AP a Ba). unfold th'. upd_simpl. exact HR.
+    + (* rember *)
+      apply Nat.eqb_eq in Er4. subst r. destruct args as [|a [|b [|c [|? ?]]]]; cbn [map] in HR; try contradiction.
+      inversion HA as [|? ? Ba HA1]; subst. inversion HA1 as [|? ? Bb HA2]; subst. inversion HA2 as [|? ? Bc _]; subst.
+      destruct HR as [[El Eo]|[[t [El Eo]]|[h [t [w [El [Eo [Hn HR]]]]]]]].
+      * pose (th' := th). start_case A AP m th th'. give def_rember [a; b; c] th' m.
+        split; [reflexivity|]. split; [vm_compute; reflexivity|]. split; [exact A|]. split; [|cbn; repeat split; reflexivity].
+        apply V_conj; [|apply V_succeed]. eapply V_conde; [left; reflexivity|]. apply V_conj; [|apply V_succeed].
+        apply V_eq. cbn [app]. unfold th'. rewrite El, Eo. reflexivity.
+      * pose (th' := upd (upd th m (app th a)) (S m) t). start_case A AP m th th'. give def_rember [a; b; c] th' m.
+        split; [reflexivity|]. split; [vm_compute; reflexivity|]. split; [exact A|]. split; [|cbn; repeat split; reflexivity].
+        apply V_conj; [|apply V_succeed]. eapply V_conde; [right; left; reflexivity|]. apply V_conj.
+        -- apply V_eq. cbn [app]. rewrite <- (AP b Bb), <- (AP c Bc). unfold th'. upd_simpl. rewrite El, Eo. reflexivity.
+        -- apply V_conj; [|apply V_succeed]. apply V_eq. cbn [app]. rewrite <- (AP a Ba). unfold th'. upd_simpl. reflexivity.
+      * pose (th' := upd (upd (upd th (S (S m)) t) (S (S (S m))) h) (S (S (S (S m)))) w). start_case A AP m th th'. give def_rember [a; b; c] th' m.
+        split; [reflexivity|]. split; [vm_compute; reflexivity|]. split; [exact A|]. split; [|cbn; repeat split; reflexivity].
+        apply V_conj; [|apply V_succeed]. eapply V_conde; [right; right; left; reflexivity|]. apply V_conj.
+        -- apply V_eq. cbn [app]. rewrite <- (AP b Bb), <- (AP c Bc). unfold th'. upd_simpl. rewrite El, Eo. reflexivity.
+        -- apply V_conj.
+           ++ apply V_diseq. cbn [app]. rewrite <- (AP a Ba). unfold th'. upd_simpl. exact Hn.
+           ++ apply V_conj; [|apply V_succeed]. apply V_call. cbn [map app]. rewrite <- (AP a Ba). unfold th'. upd_simpl. exact HR.
+    + (* distinct *)
+      apply Nat.eqb_eq in Ed. subst r. destruct args as [|a [|? ?]]; cbn [map] in HR; try contradiction.
+      inversion HA as [|? ? Ba _]; subst.
+      destruct HR as [El|[[x El]|[x [y [t [El [Hn [H1 H2]]]]]]]].
+      * pose (th' := th). start_case A AP m th th'. give def_distinct [a] th' m.
+        split; [reflexivity|]. split; [vm_compute; reflexivity|]. split; [exact A|]. split; [|cbn; repeat split; reflexivity].
+        apply V_conj; [|apply V_succeed]. eapply V_conde; [left; reflexivity|]. apply V_conj; [|apply V_succeed].
+        apply V_eq. cbn [app]. unfold th'. exact El.
+      * pose (th' := upd th m x). start_case A AP m th th'. give def_distinct [a] th' m.
+        split; [reflexivity|]. split; [vm_compute; reflexivity|]. split; [exact A|]. split; [|cbn; repeat split; reflexivity].
+        apply V_conj; [|apply V_succeed]. eapply V_conde; [right; left; reflexivity|]. apply V_conj; [|apply V_succeed].
+        apply V_eq. cbn [app]. rewrite <- (AP a Ba). unfold th'. upd_simpl. exact El.
+      * pose (th' := upd (upd (upd th (S m) x) (S (S m)) y) (S (S (S m))) t). start_case A AP m th th'. give def_distinct [a] th' m.
+        split; [reflexivity|]. split; [vm_compute; reflexivity|]. split; [exact A|]. split; [|cbn; repeat split; reflexivity].
+        apply V_conj; [|apply V_succeed]. eapply V_conde; [right; right; left; reflexivity|]. apply V_conj.
+        -- apply V_eq. cbn [app]. rewrite <- (AP a Ba). unfold th'. upd_simpl. exact El.
+        -- apply V_conj.
+           ++ apply V_diseq. cbn [app]. unfold th'. upd_simpl. exact Hn.
+           ++ apply V_conj; [apply V_call; cbn [map app]; unfold th'; upd_simpl; exact H1|].
+              apply V_conj; [|apply V_succeed]. apply V_call. cbn [map app]. unfold th'. upd_simpl. exact H2.
+    + (* permute *)
+      apply Nat.eqb_eq in Ep. subst r. destruct args as [|a [|b [|? ?]]]; cbn [map] in HR; try contradiction.
+      inversion HA as [|? ? Ba HA1]; subst. inversion HA1 as [|? ? Bb _]; subst.
+      destruct HR as [[Ea Eb]|[x [xs [ys [Ea [H1 H2]]]]]].
+      * pose (th' := th). start_case A AP m th th'. give def_permute [a; b] th' m.
+        split; [reflexivity|]. split; [vm_compute; reflexivity|]. split; [exact A|]. split; [|cbn; repeat split; reflexivity].
+        apply V_conj; [|apply V_succeed]. eapply V_conde; [left; reflexivity|]. apply V_conj; [|apply V_succeed].
+        apply V_eq. cbn [app]. unfold th'. rewrite Ea, Eb. reflexivity.
+      * pose (th' := upd (upd (upd (upd th m x) (S m) xs) (S (S m)) (app th b)) (S (S (S m))) ys). start_case A AP m th th'. give def_permute [a; b] th' m.
+        split; [reflexivity|]. split; [vm_compute; reflexivity|]. split; [exact A|]. split; [|cbn; repeat split; reflexivity].
+        apply V_conj; [|apply V_succeed]. eapply V_conde; [right; left; reflexivity|]. apply V_conj.
+        -- apply V_eq. cbn [app]. rewrite <- (AP a Ba), <- (AP b Bb). unfold th'. upd_simpl. rewrite Ea. reflexivity.
+        -- apply V_conj; [|apply V_succeed]. apply V_fresh. apply V_conj.
+           ++ apply V_call. cbn [map app]. unfold th'. upd_simpl. exact H1.
+           ++ apply V_conj; [|apply V_succeed]. apply V_call. cbn [map app]. rewrite <- (AP b Bb). unfold th'. upd_simpl. exact H2.
 Qed.
 
 Lemma LibV0 : forall r vals, ~ LibV 0 r vals.
@@ -129,4 +318,35 @@ Proof.
   - apply V_call. cbn [map]. rewrite Ea, Eb. exact Hk.
   - reflexivity.
   - cbn. repeat constructor; assumption.
+Qed.
+
+Ltac finish_complete k Hk := apply (completeV_delivered lib_defs LibV LibV0 lib_unfold k); auto;
+  [apply V_call; cbn [map]; exact Hk|reflexivity|cbn; repeat constructor; assumption].
+
+Theorem member1_complete : forall x l, Member1V x l ->
+  forall st th a b, MstG th st -> GoodS st -> stb st ->
+  tb (st_nextv st) a -> tb (st_nextv st) b -> app th a = x -> app th b = l ->
+  exists ans th' n, agree (st_nextv st) th th' /\ MstG th' ans /\ emitsE sq n (sq (CCall BFS rel_member1 [a; b]) st) ans.
+Proof.
+  intros x l HV st th a b HM HG B Ba Bb Ea Eb. destruct (Member1V_LibV x l HV) as [k Hk]. rewrite <- Ea, <- Eb in Hk. finish_complete k Hk.
+Qed.
+Theorem rember_complete : forall x l o, RemberV x l o ->
+  forall st th a b c, MstG th st -> GoodS st -> stb st ->
+  tb (st_nextv st) a -> tb (st_nextv st) b -> tb (st_nextv st) c -> app th a = x -> app th b = l -> app th c = o ->
+  exists ans th' n, agree (st_nextv st) th th' /\ MstG th' ans /\ emitsE sq n (sq (CCall BFS rel_rember [a; b; c]) st) ans.
+Proof.
+  intros x l o HV st th a b c HM HG B Ba Bb Bc Ea Eb Ec. destruct (RemberV_LibV x l o HV) as [k Hk]. rewrite <- Ea, <- Eb, <- Ec in Hk. finish_complete k Hk.
+Qed.
+Theorem distinct_complete : forall l, DistinctV l ->
+  forall st th a, MstG th st -> GoodS st -> stb st -> tb (st_nextv st) a -> app th a = l ->
+  exists ans th' n, agree (st_nextv st) th th' /\ MstG th' ans /\ emitsE sq n (sq (CCall BFS rel_distinct [a]) st) ans.
+Proof.
+  intros l HV st th a HM HG B Ba Ea. destruct (DistinctV_LibV l HV) as [k Hk]. rewrite <- Ea in Hk. finish_complete k Hk.
+Qed.
+Theorem permute_complete : forall x y, PermuteV x y ->
+  forall st th a b, MstG th st -> GoodS st -> stb st ->
+  tb (st_nextv st) a -> tb (st_nextv st) b -> app th a = x -> app th b = y ->
+  exists ans th' n, agree (st_nextv st) th th' /\ MstG th' ans /\ emitsE sq n (sq (CCall BFS rel_permute [a; b]) st) ans.
+Proof.
+  intros x y HV st th a b HM HG B Ba Bb Ea Eb. destruct (PermuteV_LibV x y HV) as [k Hk]. rewrite <- Ea, <- Eb in Hk. finish_complete k Hk.
 Qed.
